@@ -5,10 +5,13 @@ scope is pushed on the given chain, the new bindings are declared in it in order
 sequence runs there; whatever it signals is the result, unchanged."""
 import extract
 import parts
+import name_bind
 from verus_engine import Built, assemble, desugar_for
 
 NAME = "scoped"
 RLIMIT = 60
+
+HASHSET = name_bind.MODEL[name_bind.MODEL.index("// ---- D3: std::collections::HashSet"):name_bind.MODEL.index("// ---- abstract view of the scope chain")]
 
 MODEL = r"""
 // D3: std HashMap only appears as the argument `HashMap::new()` of new_from_push
@@ -42,7 +45,15 @@ pub mod bind {
         ensures (r, final(scopes).world()) == sem_bind(old(scopes).world(), *lhs, rhs, bind_type),
                 r matches Err(e) ==> located(e),
     { unimplemented!() }
+    // the recursive binder with an explicit set of the names bound so far (what `bind` starts with an empty set): its own
+    // uninterpreted result - nothing relates it to `bind`'s here
+    #[verifier::external_body]
+    pub fn bind_next(context: &EvaluationContext, scopes: &mut ScopeStack, names_in_binding: &mut HashSet<String>, lhs: &Expr, rhs: SourcedValue, op: Option<(BinaryOp, Location)>, bind_type: BindType) -> (r: Result<()>)
+        ensures (r, final(scopes).world(), final(names_in_binding)@) == sem_bind_next(old(scopes).world(), old(names_in_binding)@, *lhs, rhs, op, bind_type),
+                r matches Err(e) ==> located(e),
+    { unimplemented!() }
 }
+pub uninterp spec fn sem_bind_next(w: W, names: Set<Seq<char>>, lhs: Expr, rhs: SourcedValue, op: Option<(BinaryOp, Location)>, bt: BindType) -> (Result<()>, W, Set<Seq<char>>);
 // under contract in unit V-ctl
 #[verifier::external_body]
 pub fn eval_stmts_with_scope_stack(context: &EvaluationContext, scopes: &mut ScopeStack, stmts: &Block) -> (r: Result<Escape>)
@@ -100,10 +111,10 @@ def build(read):
         ensures
             declare_all(w0, bs, 0) == (true, new_scopes.world()),
         decreases bs.len() - i"""}}
-    f1 = extract.annotate_fn(hdr + body, spec=SPEC, attrs="#[verifier::loop_isolation(false)]\n#[verifier::allow_complex_invariants]", loops=loops)
+    f1 = extract.annotate_fn(hdr + body, spec=SPEC, attrs="#[verifier::exec_allows_no_decreases_clause]\n#[verifier::loop_isolation(false)]\n#[verifier::allow_complex_invariants]", loops=loops)
     f1 = extract.rewrite_once(f1, "Some(__x) => __x, None => break };\n",
                               "Some(__x) => __x, None => break };\n proof { i = i + 1; assert((lhs, rhs) == bs[i - 1]); }\n", "eval_stmts: ghost index")
-    f2 = extract.annotate_fn(f2, spec=SPEC2)
+    f2 = extract.annotate_fn(f2, spec=SPEC2, attrs="#[verifier::exec_allows_no_decreases_clause]\n")
     b.edits.append("D3: std HashMap replaced by an opaque type with `new()` (only passed to new_from_push)")
 
     b.text = assemble([
@@ -111,7 +122,7 @@ def build(read):
         parts.HEADER.replace("use std::collections::HashSet;\n", ""), parts.OPAQUE_CONTEXT, parts.value_items(b, read), parts.value_model(True),
         sel, err_text, parts.located_spec(variants), parts.ast_text(b, read),
         "// ---- verbatim from src/eval/mod.rs / bind.rs", esc, bt,
-        MODEL,
+        HASHSET, MODEL,
         parts.value_ctors(b, read, ["new_val_ref_with_no_source", "new_val_ref_with_source", "new_null", "new_bool", "new_int", "new_str", "new_list", "new_object"]),
         "// ---- functions under contract (verbatim bodies; contract text inserted at anchors)",
         f1, f2,
